@@ -248,6 +248,41 @@ impl TimedCache {
         items
     }
 
+    /// Add-only accessor for the /verif harness: the complete mutable state of the cache,
+    /// without triggering a clean: (epoch-record slot, entries sorted by key with their
+    /// expiration, instant of the last clean, cleaning enabled)
+    #[cfg(feature = "verif_hooks")]
+    #[allow(clippy::type_complexity)]
+    pub async fn verif_snapshot(
+        &self,
+    ) -> (
+        Option<DbRecord>,
+        Vec<(Vec<u8>, DbRecord, Instant)>,
+        Instant,
+        bool,
+    ) {
+        let azks = self.azks.read().await.clone();
+        let mut entries = self
+            .map
+            .iter()
+            .map(|kv| {
+                (
+                    kv.key().clone(),
+                    kv.value().data.clone(),
+                    kv.value().expiration,
+                )
+            })
+            .collect::<Vec<_>>();
+        entries.sort_by(|a, b| a.0.cmp(&b.0));
+        let last_clean = *self.last_clean.read().await;
+        (
+            azks,
+            entries,
+            last_clean,
+            self.can_clean.load(Ordering::Relaxed),
+        )
+    }
+
     /// Disable cache-cleaning (e.g. during a transaction).
     pub fn disable_clean(&self) {
         debug!("Disabling cache cleaning");
